@@ -240,6 +240,7 @@ class PathState(object):
             if r == z3.sat:
                 self.model = self.solver.model()
                 self.model_valid = True
+                self.model_src = "ensure@%d" % len(self.keys)
             elif r == z3.unsat:
                 # must not happen: every literal is added on a side known to be feasible
                 self.ex.note_inconclusive("engine anomaly: path condition became unsatisfiable")
